@@ -65,7 +65,7 @@ pub enum Case {
   Algebra { u: U, a: Vec<El>, b: Vec<El>, e: El, op: Op, route: Route },
   /// different element kinds on the two sides
   Mixed { ua: U, a: Vec<El>, ub: U, b: Vec<El>, op: Op },
-  /// comprehension shapes over f64 sets: 0 identity, 1 filter x>t, 2 map x*2, 3 product, 4 join (repeated variable), 5 let-binding, 6 tuple pattern sum, 7 two generators + filter x<y
+  /// comprehension shapes over f64 sets: 0 identity, 1 filter x>t, 2 map x*2, 3 product, 4 join (repeated variable), 5 let-binding, 6 tuple pattern sum, 7 two generators + filter x<y, 8-11 dependent generators (a later generator's source mentions a variable of an earlier one; 10 with a filter, 11 three levels deep)
   Compr { a: Vec<El>, b: Vec<El>, shape: u8, t: u8 },
 }
 
@@ -83,14 +83,14 @@ impl Prop for C14 {
     let mixed = (pick(UNIVERSES.to_vec()), pick(UNIVERSES.to_vec()), pick(vec![Op::Union, Op::Inter, Op::Diff, Op::SymDiff, Op::Insert]))
       .prop_filter("same", |(a, b, _)| a != b)
       .prop_flat_map(|(ua, ub, op)| (els(ua, 4), els(ub, 4)).prop_map(move |(a, b)| Case::Mixed { ua, a, ub, b, op })).boxed();
-    let compr = (els(U::F64, 6), els(U::F64, 6), 0u8..8, 0u8..8).prop_map(|(a, b, shape, t)| Case::Compr { a, b, shape, t }).boxed();
+    let compr = (els(U::F64, 6), els(U::F64, 6), 0u8..12, 0u8..8).prop_map(|(a, b, shape, t)| Case::Compr { a, b, shape, t }).boxed();
     prop_oneof![8 => alg, 1 => mixed, 3 => compr].boxed()
   }
   fn rule() -> &'static str {
     "case = two sets of 0-7 written elements (random order, duplicates, alternative spellings of equal values such as 1 / 1.0 / 0.5+0.5, \
      1/2 / 2/4, {1,2} / {2,1}) over an 8-value universe of one element kind ∈ {f64,u8,i32,r64,string,bool,tuple,nested set}, an operator \
      ∈ {∪ ∩ ∖ Δ ⊆ ⊊ ⊇ ⊋ ∈ ∉ size insert remove literal}, a construction route (literal, variable, from matrix, word form); plus \
-     mixed-kind operand pairs and eight comprehension shapes. Oracle: mathematical sets of canonical values + invariants (distinct, one \
+     mixed-kind operand pairs and twelve comprehension shapes (four with dependent generators). Oracle: mathematical sets of canonical values + invariants (distinct, one \
      kind, declared size) on every observed set. Non-trivial = operands overlap partially and are written in different orders, or the \
      element kind is not f64; distinct key = (op, kind, |A|, |B|, |A∩B|, route)."
   }
@@ -160,7 +160,12 @@ fn render(c: &Case) -> Vec<String> {
         4 => "{x | x <- a, x <- b}".to_string(),
         5 => "{y | x <- a, y := x + 1}".to_string(),
         6 => "{x + y | (x, y) <- p}".to_string(),
-        _ => "{(x, y) | x <- a, y <- b, x < y}".to_string(),
+        7 => "{(x, y) | x <- a, y <- b, x < y}".to_string(),
+        // dependent generators: the source of a later generator mentions a variable bound by an earlier one (evaluated once per binding)
+        8 => "{x + y | x <- a, y <- {x, 10}}".to_string(),
+        9 => "{y | x <- b, y <- {x, x + 1}}".to_string(),
+        10 => "{(x, y) | x <- a, y <- {x * 2, x * 3}, y > 4}".to_string(),
+        _ => "{y + z | x <- a, y <- {x, x + 1}, z <- {y, 100}}".to_string(),
       });
       st
     }
@@ -303,7 +308,11 @@ fn judge(c: &Case, text: &str, out: Outcome, mut v: Verdict) -> Verdict {
         4 => fa.iter().filter(|x| fb.contains(x)).map(|x| sc(*x)).collect(),
         5 => fa.iter().map(|x| sc(*x + 1.0)).collect(),
         6 => fa.iter().flat_map(|x| fb.iter().map(move |y| sc(*x + *y))).collect(),
-        _ => fa.iter().flat_map(|x| fb.iter().filter(move |y| *x < **y).map(move |y| tp(*x, *y))).collect(),
+        7 => fa.iter().flat_map(|x| fb.iter().filter(move |y| *x < **y).map(move |y| tp(*x, *y))).collect(),
+        8 => fa.iter().flat_map(|x| [*x, 10.0].into_iter().map(move |y| sc(*x + y))).collect(),
+        9 => fb.iter().flat_map(|x| [*x, *x + 1.0].into_iter().map(|y| sc(y))).collect(),
+        10 => fa.iter().flat_map(|x| [*x * 2.0, *x * 3.0].into_iter().filter(|y| *y > 4.0).map(move |y| tp(*x, y))).collect(),
+        _ => fa.iter().flat_map(|x| [*x, *x + 1.0].into_iter().flat_map(|y| [y, 100.0].into_iter().map(move |z| sc(y + z)))).collect(),
       };
       want.sort(); want.dedup();
       v.key = Some(format!("compr|{}|{}|{}|{}", shape, fa.len(), fb.len(), want.len()));
@@ -314,7 +323,7 @@ fn judge(c: &Case, text: &str, out: Outcome, mut v: Verdict) -> Verdict {
         }
         Outcome::Ok(other) => v.fail(format!("C14|comprehension-not-a-set|shape{}", shape), format!("`{}` gave {}", text, other.show())),
         other => {
-          let empty = fa.is_empty() || ((*shape == 3 || *shape == 4 || *shape >= 6) && fb.is_empty());
+          let empty = (fa.is_empty() && *shape != 9) || ((*shape == 3 || *shape == 4 || *shape == 6 || *shape == 7 || *shape == 9) && fb.is_empty());
           v.fail(format!("C14|comprehension-rejected|shape{}{}", shape, if empty { "|empty-generator" } else { "" }), format!("`{}` with a = {:?}, b = {:?} gave {}", text, fa, fb, other.show()));
         }
       }
